@@ -15,9 +15,11 @@ CLAUSE = {1: "failed-op-changed-hooks", 2: "not-restored-after-balanced-removal"
           7: "pool-kept-alive"}
 CORR = {1: "outcome-class", 2: "handler-calls", 3: "notifier-lists"}
 
-FNUM = {"value": 2, "f": 3, "g": 4, "kids": 5, "m": 6, "s": 7, "w": 8, "nonexist": 9, "value2": 10, "items": 11}
+FNUM = {"value": 2, "f": 3, "g": 4, "kids": 5, "m": 6, "s": 7, "w": 8, "nonexist": 9, "value2": 10, "items": 11,
+        "extra": 13}
 F_OBJ = 12
 TRAITS = {"N": ["value", "value2", "f", "g", "kids", "m", "s", "w"], "P": ["value2", "f", "kids", "w"]}
+TRAITS["E"] = TRAITS["N"]      # class E: N with value-based __eq__/__hash__ (all E objects of a case are equal)
 CK = {"list": "CList", "dict": "CDict", "set": "CSet"}
 MK = {"N": "MNamed", "L": "(MItems CList)", "D": "(MItems CDict)", "S": "(MItems CSet)", "T": "MTA"}
 EXN = {"ValueError": "ValueError", "NotifierNotFound": "NotifierNotFound", "RuntimeError": "RuntimeError"}
@@ -91,6 +93,8 @@ def op_term(op, ob, gt):
         return "(RCollectOwner %d)" % op[1]
     if k == "CollectObj":
         return "(RCollectObj %d)" % op[1]
+    if k == "AddTrait":
+        return "(RAddTrait %d 13 %s)" % (op[1], lst([] if op[2] is None else [str(op[2])]))
     if k == "SetLink":
         return "(RSetLink %d %d %s)" % (op[1], FNUM[op[2]], lst([] if op[3] is None else [str(op[3])]))
     if k == "Mut":
@@ -134,9 +138,10 @@ def univ_term(case):
         for nm in TRAITS[d["cls"]]:
             us.append("(ov %d %d)" % (i, FNUM[nm]))
         us.append("(ov %d 1)" % i)
+        us.append("(ov %d 13)" % i)
         us.append("(ov %d %d)" % (i, F_OBJ))
         us.append("(ov %d 0)" % (5 + 3 * i))
-        if d["cls"] == "N":
+        if d["cls"] in ("N", "E"):
             us.append("(ov %d 0)" % (5 + 3 * i + 1))
             us.append("(ov %d 0)" % (5 + 3 * i + 2))
     return lst(us)
@@ -289,6 +294,14 @@ def gen_case(rnd, ctx, maxlen):
             d["s"] = sorted(set(rnd.choice(others) for _ in range(rnd.choice([0, 0, 1, 2]))))
         d["w"] = rnd.choice([None, None, "plain", "pylist"])
         objs.append(d)
+    if n >= 3 and rnd.random() < 0.25:
+        # two distinct but ==-equal observing objects (class E: value-based __eq__/__hash__) that share their
+        # downstream objects: their registrations of one handler must stay independent
+        shared = dict(objs[0], cls="E")
+        for fld in ("m", "s"):
+            shared.setdefault(fld, [])
+        objs[0], objs[1] = shared, dict(shared)
+        ctx.count("case:two-equal-observing-objects")
     nh = rnd.randint(1, 3)
     handlers = [rnd.choice(["func", "func", "rfunc", "meth", "meth"]) for _ in range(nh)]
     bad = rnd.choice([0.0, 0.15, 0.5])
@@ -395,7 +408,13 @@ def gen_dyn_case(rnd, ctx, maxlen):
             graphsets.append(gs)
     if not is_text(graphsets[0]):
         handlers = [("ameth" if hk == "meth" and rnd.random() < 0.4 else hk) for hk in handlers]
+    if not is_text(graphsets[0]) and rnd.random() < 0.5:
+        # registrations on a trait that does not exist yet (optional) and is added later with add_trait
+        leafs = [N_("value"), N_("value2", rnd.random() < 0.8, rnd.random() < 0.3)]
+        ex = N_("extra", rnd.random() < 0.6, True, [rnd.choice(leafs)])
+        graphsets.append([canon_graph(rnd.choice([ex, N_("f", True, False, [ex]), N_("extra", True, True)]))])
     ctx.count("graphs-from:" + ("text" if is_text(graphsets[0]) else "objects") + "(dynamic)")
+    extra_added = set()
     # generation-time copy of the containers (only to produce valid indices / keys)
     kids = {i: list(d["kids"]) for i, d in enumerate(objs)}
     mkeys = {i: ["k%d" % j for j in range(len(d["m"]))] for i, d in enumerate(objs)}
@@ -430,8 +449,14 @@ def gen_dyn_case(rnd, ctx, maxlen):
             hi = list(range(i + 1, n))
             if not hi:
                 continue
-            what = rnd.choice(["link", "link", "append", "pop", "setitem", "dset", "ddel", "sadd", "sdiscard"])
-            if what == "link":
+            what = rnd.choice(["link", "link", "append", "pop", "setitem", "dset", "ddel", "sadd", "sdiscard", "addtrait"])
+            if what == "addtrait":
+                i = rnd.choice([0, 0, 1])
+                if i in extra_added:
+                    continue
+                extra_added.add(i)
+                op = ["AddTrait", i, rnd.choice(list(range(i + 1, n)) + [None])]
+            elif what == "link":
                 fld = rnd.choice(["f", "g"])
                 cur = link[(i, fld)]
                 new = rnd.choice([x for x in hi + [None] if x != cur] or [None])
@@ -512,6 +537,27 @@ def corpus():
     cs.append(dict(objs=objs, handlers=["meth", "func"],
                    ops=[["Reg", 0, 0, 0, None, "f.value"], ["Reg", 0, 1, 0, None, "kids.items.value"], ["Change", 1, 2],
                         ["CollectOwner", 0], ["Change", 1, 2], ["CollectObj", 0], ["Change", 1, 2], ["Change", 2, 2]]))
+    # a registration on a not-yet-defined optional trait, completed by add_trait while an earlier trait_added
+    # handler has already given the new trait a value; fully reversible afterwards
+    pend = [{"cls": "N", "f": 1, "kids": [], "m": [], "s": []}, {"cls": "N", "kids": [], "m": [], "s": []},
+            {"cls": "N", "kids": [], "m": [], "s": []}]
+    for notify in (False, True):
+        g_ex = N_("extra", notify, True, [N_("value")])
+        for gs in ([g_ex], [N_("f", True, False, [g_ex])]):
+            tgt = 0 if gs[0] is g_ex else 1
+            cs.append(dict(objs=pend, handlers=["func"],
+                           ops=[["Reg", 0, 0, 0, gs, None], ["Reg", 0, 0, 0, gs, None], ["Change", 2, 2],
+                                ["AddTrait", tgt, 2], ["Change", 2, 2], ["Unreg", 0, 0, 0, gs, None], ["Change", 2, 2],
+                                ["Unreg", 0, 0, 0, gs, None], ["Change", 2, 2], ["Unreg", 0, 0, 0, gs, None]]))
+    # two ==-equal observing objects sharing a child, one handler: independent registrations
+    eq = [{"cls": "E", "f": 2, "kids": [2, 3], "m": [], "s": []}, {"cls": "E", "f": 2, "kids": [2, 3], "m": [], "s": []},
+          {"cls": "N", "kids": [], "m": [], "s": []}, {"cls": "N", "kids": [], "m": [], "s": []}]
+    for text in ("f.value", "kids.items.value"):
+        for hk in ("func", "meth"):
+            cs.append(dict(objs=eq, handlers=[hk],
+                           ops=[["Reg", 0, 0, 0, None, text], ["Reg", 1, 0, 0, None, text], ["Change", 2, 2],
+                                ["Unreg", 0, 0, 0, None, text], ["Change", 2, 2], ["CollectObj", 0], ["Change", 2, 2],
+                                ["Unreg", 1, 0, 0, None, text], ["Change", 2, 2], ["Unreg", 1, 0, 0, None, text]]))
     # every kind of bound-method handler: plain and `async def`; number and nested expression
     g_v = N_("value")
     g_fv = N_("f", True, False, [N_("value")])
